@@ -212,8 +212,10 @@ class An:
                 out |= self._roots_rv(st['rv'], _seen)
             elif st['k'] == 'call':
                 if is_refish(st['dest_ty']):
+                    # a `&mut` result can only be derived from `&mut` arguments (safe code, no interior mutability)
+                    only_mut = st['dest_ty'].startswith('&mut ')
                     for a, aty in zip(st['args'], st['arg_tys']):
-                        if is_refish(aty):
+                        if is_refish(aty) and (not only_mut or is_mutref(aty)):
                             out |= self._roots_op(a, _seen)
         if len(_seen) == 1:
             self._roots_memo[l] = out
@@ -464,7 +466,12 @@ class An:
                     out.append((site, path, ('store', ('call', cpath, args, site[0])), dom))
                     hit = True
             if not hit:
-                out.append((site, None, ('call?', cpath, args, self.callee_info(st)), dom))
+                # phase 1 (roots) over-approximates; if every &mut argument is a known reference to something
+                # else, this call does not write the local
+                unknown = [x for x, aty in zip(args, st['arg_tys']) if is_mutref(aty) and not (
+                    x[0] == 'addr' and x[1][0] in ('local', 'pointee', 'cell', 'promoted')) and x[0] != 'param']
+                if unknown:
+                    out.append((site, None, ('call?', cpath, args, self.callee_info(st)), dom))
         return out
 
     def callee_info(self, t):
@@ -928,6 +935,9 @@ def _pp(t, depth=0):
         return '%s(%s)' % (t[1], ', '.join(pp(a, d) for a in t[2]))
     if k == 'agg':
         return '%s{%s}' % (t[2], ', '.join(pp(a, d) for a in t[3]))
+    if k == 'mem' and len(t) == 4:
+        ws = '; '.join('%s<-%s' % (pp_path(w[0], d) if w[0] is not None else '?', pp_w(w[1], d)) for w in t[2])
+        return 'mem(%s%s | %s)' % (pp(t[1], d), pp_path(t[3], d), ws)
     if k == 'mem':
         ws = '; '.join('%s<-%s' % (pp_path(w[1], d) if w[1] is not None else '?', pp_w(w[2], d)) for w in t[3])
         return 'mem(_%d%s = %s | %s)' % (t[1], pp_path(t[4], d), pp(t[2], d), ws)
@@ -962,7 +972,7 @@ def pp_w(desc, d=0):
     if desc[0] == 'store':
         return 'store ' + pp(desc[1], d)
     if desc[0] == 'call':
-        return '%s(%s)#%d' % (desc[1], ', '.join(pp(a, d) for a in desc[2]), desc[3])
+        return '%s(%s)#%s' % (desc[1], ', '.join(pp(a, d) for a in desc[2]), desc[3])
     if desc[0] == 'call?':
         return '%s(%s)#?' % (desc[1], ', '.join(pp(a, d) for a in desc[2]))
     return str(desc[0])
